@@ -204,13 +204,18 @@ def late_metadata(seed=0):
     fails = []
     try:
         md = {}
-        sv = ModelSaver(1, tmp, "ck_{}.pt", save_initial=True, metadata=md)
+        sv = ModelSaver(1, tmp, "ck_{:>04}.pt", save_initial=True, metadata=md)       # a format spec that also fits the label of the initial save
+        sv2 = ModelSaver(1, tmp, "n_{:03d}.pt", save_initial=False)
         md["run"] = "r7"
         md["lr"] = 0.01
         pw = C.make_state("positive", 2, 2)
         data = torch.tensor(rng.integers(0, 2, size=(4, 2)), dtype=torch.double)
-        pw.fit(data, epochs=2, pos_batch_size=2, neg_batch_size=2, k=1, lr=0.01, callbacks=[sv])
-        for nm in ("initial", 1, 2):
+        pw.fit(data, epochs=2, pos_batch_size=2, neg_batch_size=2, k=1, lr=0.01, callbacks=[sv, sv2])
+        names = sorted(os.listdir(tmp))
+        if names != sorted(["ck_initial.pt", "ck_0001.pt", "ck_0002.pt", "n_001.pt", "n_002.pt"]):
+            fails.append(("files are not named file_name.format(epoch)", names))
+            return fails
+        for nm in ("initial", "0001", "0002"):
             got = torch.load(os.path.join(tmp, "ck_%s.pt" % nm), weights_only=False)
             if got.get("run") != "r7" or got.get("lr") != 0.01:
                 fails.append(("checkpoint ck_%s.pt does not carry the caller's metadata (dictionary filled after the ModelSaver was built)" % nm, sorted(k for k in got if k not in ("rbm_am", "rbm_ph", "unitary_dict"))))
